@@ -32,6 +32,7 @@ type op struct {
 	To    int    `json:"to"`
 	From  int    `json:"from"`
 	Ms    []int  `json:"ms"`
+	Join  bool   `json:"join"`
 	Batch bool   `json:"batch"`
 	Max   int    `json:"max"`
 }
@@ -343,8 +344,9 @@ func run(r *rec.Recorder, idx int, s scenario) {
 		case "push":
 			seenNodes[o.To] = true
 			seenNodes[o.From] = true
-			buf := w.node(o.From).State.Distributor().LocalState(false)
-			w.node(o.To).State.Distributor().MergeRemoteState(buf, false)
+			// memberlist passes join = true for the push/pull exchanges of a Join (with every seed, in both directions)
+			buf := w.node(o.From).State.Distributor().LocalState(o.Join)
+			w.node(o.To).State.Distributor().MergeRemoteState(buf, o.Join)
 			w.r.Emit(rec.Ev{"op": "push", "from": o.From, "to": o.To})
 			probeAll()
 		case "permute":
